@@ -144,10 +144,37 @@ def _f21(hist, mm):
 
 @signature('F25')
 def _f25(hist, mm):
-    """make_uniform_randoms on a footprint touching lon 0: starvation west of 0 or non-termination"""
+    """make_uniform_randoms on a footprint touching lon 0 whose UNROTATED longitude range is the one used
+    and is clipped at 0 or 2*pi: starvation beyond the clip, or non-termination.  (A footprint for which
+    the routine switches to the rotated frame is not this finding.)"""
     if not any(('did not terminate' in m['what']) or ('never fall' in m['what']) for m in mm):
         return False
-    return any(st.get('op') == 'rand' and st.get('kind') == 'slow' for st in hist)
+    if not any(st.get('op') == 'rand' and st.get('kind') == 'slow' for st in hist):
+        return False
+    try:
+        import numpy as np
+        import hpgeom as hpg
+        mk = [st for st in hist if st.get('op') == 'mk'][0]
+        pix = []
+        for st in hist:
+            if st.get('op') == 'upd' and st.get('h') == mk['h']:
+                pix += list(st.get('pixels') or [])
+        if not pix:
+            return False
+        nc, ns = mk['nc'], mk['ns']
+        cov = np.unique(np.array(pix, dtype=np.int64) // ((ns // nc) ** 2))
+        th, ph = hpg.pixel_to_angle(nc, cov, nest=True, lonlat=False)
+        eb = 2.0 * hpg.nside_to_resolution(nc, units='radians')
+        st_ = np.sin(th)
+        lo, hi = np.min(ph - eb / st_), np.max(ph + eb / st_)
+        r0 = np.clip([lo, hi], 0.0, 2.0 * np.pi)
+        pr = ph + np.pi
+        pr[pr > 2.0 * np.pi] -= 2.0 * np.pi
+        r1 = np.clip([np.min(pr - eb / st_), np.max(pr + eb / st_)], 0.0, 2.0 * np.pi)
+        rotated = (r1[1] - r1[0]) < ((r0[1] - r0[0]) - 0.1)
+        return (not rotated) and (lo < 0.0 or hi > 2.0 * np.pi)
+    except Exception:  # noqa
+        return False
 
 
 def _cat_inputs(hist):
